@@ -25,6 +25,7 @@ func main() {
 	e2e := flag.Int("e2e", 0, "")
 	history := flag.Int("history", 0, "")
 	delay := flag.Int("delay", 50, "")
+	paris := flag.Bool("paris", false, "")
 	flag.Parse()
 	if *history > 0 {
 		// a long-lived process: earlier runs have used up packet identifiers, the next run's range starts `history` below the
@@ -37,7 +38,7 @@ func main() {
 	}
 	tr := traceroute.NewTraceroute()
 	res, err := tr.RunTraceroute(context.Background(), traceroute.TracerouteParams{Hostname: flag.Arg(0), Port: *port, Protocol: *proto, MinTTL: *min, MaxTTL: *max, Delay: *delay,
-		Timeout: time.Duration(*timeout) * time.Millisecond, TCPMethod: traceroute.TCPMethod(*method), TracerouteQueries: *q, E2eQueries: *e2e})
+		Timeout: time.Duration(*timeout) * time.Millisecond, TCPMethod: traceroute.TCPMethod(*method), TracerouteQueries: *q, E2eQueries: *e2e, TCPSynParisTracerouteMode: *paris})
 	if err != nil {
 		fmt.Fprintln(os.Stderr, "error:", err)
 		os.Exit(1)
